@@ -19,6 +19,11 @@ namespace Ccp.Py
 /-- one of the 10 code points at which `str.splitlines()` breaks -/
 def isBreak (c : Char) : Bool := Gen.linebreaks.contains c.toNat
 
+/-- put a character in front of the first word (a first word is started when there is none) -/
+def pushHead (c : Char) : List Str → List Str
+  | [] => [[c]]
+  | w :: ws => (c :: w) :: ws
+
 /-- `str.splitlines()`: breaks at the 10 boundaries, `"\r\n"` is one break, no trailing
 empty element -/
 def splitlines : Str → List Str
@@ -26,10 +31,7 @@ def splitlines : Str → List Str
   | c :: cs =>
     if c = '\r' && cs.head? = some '\n' then splitlines cs      -- the `\n` that follows makes the break
     else if isBreak c then [] :: splitlines cs
-    else
-      match splitlines cs with
-      | [] => [[c]]
-      | w :: ws => (c :: w) :: ws
+    else pushHead c (splitlines cs)
 
 end Ccp.Py
 
@@ -61,10 +63,7 @@ def splitRegexCRLF : Text → List Str
   | c :: cs =>
     if c = '\n' then [] :: splitRegexCRLF cs
     else if c = '\r' && sepAhead cs then splitRegexCRLF cs     -- part of the separator that ends at the next `\n`
-    else
-      match splitRegexCRLF cs with
-      | [] => [[c]]             -- unreachable: the result is never empty
-      | w :: ws => (c :: w) :: ws
+    else pushHead c (splitRegexCRLF cs)    -- (the result of the recursive call is never empty)
 
 inductive Err
   | fileNotFound        -- FileNotFoundError
